@@ -398,11 +398,12 @@ Proof.
     - intros b Hb. apply aes_inv_cipher_wf; [|exact Hb].
       apply Forall_rev, aes_round_keys_wf, gppp_key_wf.
     - apply full_blocks_spec. unfold full_blocks. now apply N.eqb_eq. }
+  clear Hplain. generalize dependent (gpp_plain_padded ct). intros plain Hpwf.
   split.
   - intros H. split; [exact H16|].
-    destruct (pkcs7_unpad (gpp_plain_padded ct)) as [pt| |] eqn:Hu; cbn [bind] in H; try discriminate.
+    destruct (pkcs7_unpad plain) as [pt| |] eqn:Hu; cbn [bind] in H; try discriminate H.
     exists pt. apply (unpad_iff _ _ Hpwf) in Hu.
-    destruct (N.eqb_spec (lenN pt mod 2) 0) as [He|]; cbn [negb] in H; [|discriminate].
+    destruct (N.eqb_spec (lenN pt mod 2) 0) as [He|]; cbn [negb] in H; [|discriminate H].
     assert (Hptwf : wf_bytes pt).
     { destruct Hu as (p & _ & Heq). rewrite Heq in Hpwf. now apply wf_bytes_app in Hpwf. }
     rewrite dec_utf16le_go_spec in H by assumption. injection H as <-. auto.
